@@ -8,15 +8,27 @@ for l in open('/verif/properties.jsonl'):
         break
 else:
     sys.exit("no such property")
-wt = f"/tmp/wt-{pid}"
-out = f"/tmp/seed-{pid}"
+tag = sys.argv[2] if len(sys.argv) > 2 else ""
+wt = f"/tmp/wt{tag}-{pid}"
+out = f"/tmp/seed{tag}-{pid}"
+known = ""
+if tag:
+    import glob, os
+    prev = []
+    for d in sorted(glob.glob(f"/verif/seeded/{pid}-*")):
+        try:
+            prev.append(json.load(open(os.path.join(d, "meta.json"))).get("summary", "")[:400])
+        except Exception:
+            pass
+    if prev:
+        known = "\n\nALREADY KNOWN CHANGES (found by earlier helpers — do NOT reuse these code sites or mechanisms; find different ones):\n" + "\n".join(f" - {x}" for x in prev)
 print(f"""You are helping to evaluate a verification effort for the open-source Python project ymahlau/fdtdx (a JAX-based differentiable 3D FDTD electromagnetic solver). Your job: produce TWO independent, realistic, subtle code changes ("variant a" and "variant b") to the fdtdx source that each BREAK the semantic property below, while the package still imports and the existing test-suite still passes. This is authorised mutation testing in a sealed sandbox; nothing leaves this machine.
 
 THE PROPERTY ({pid}): {p['title']}
 Statement: {p['statement']}
 Quantifier: {p['quantifier']['text']}
 Where it lives (files): {', '.join(p['anchors'].get('files', []))}
-Mechanism: {'; '.join((m.get('name','')+' @ '+m.get('where','')) if isinstance(m,dict) else str(m) for m in p['anchors'].get('mechanism',[]))}
+Mechanism: {'; '.join((m.get('name','')+' @ '+m.get('where','')) if isinstance(m,dict) else str(m) for m in p['anchors'].get('mechanism',[]))}{known}
 
 YOUR WORKSPACE: a scratch git worktree of the repository at {wt} (already created, detached HEAD). Work ONLY there and under {out}/ . Never touch /repo or /verif and do not read anything under /verif. Source is in {wt}/src/fdtdx, tests in {wt}/tests.
 
